@@ -56,9 +56,9 @@ EXTENDS Naturals, Sequences, FiniteSets, TLC
 CONSTANTS DrainBug,    \* entry handler uploads from the tar reader it drained with io.ReadAll
           LinkCode,    \* link targets / link chains resolved the way the code does
           DupPathBug,  \* Docker layer handlers keyed by path: a repeated path keeps only the last index
-          Scenarios    \* set of scenario records (catalogue x link pattern x selection), see TarImportMC
+          Table        \* scenario id -> scenario record (catalogue x link pattern x selection), see TarImportMC
 
-VARIABLES sc,      \* the scenario (constant during a behaviour)
+VARIABLES sid,     \* id of the scenario (constant during a behaviour)
           arch,    \* archive produced so far (sequence of entries)
           rest,    \* entries not yet placed
           pos,     \* index of the next entry of the current pass
@@ -67,7 +67,8 @@ VARIABLES sc,      \* the scenario (constant during a behaviour)
           imp,     \* tarReadData
           tgt,     \* target store
           err      \* why it failed
-vars == <<sc, arch, rest, pos, pass, phase, imp, tgt, err>>
+vars == <<sid, arch, rest, pos, pass, phase, imp, tgt, err>>
+sc == Table[sid]
 
 (* ------------------------------ paths ---------------------------------- *)
 Dir(p) == IF Len(p) <= 1 THEN <<>> ELSE SubSeq(p, 1, Len(p) - 1)     \* <<>> is "."
@@ -238,7 +239,7 @@ ImpInit == [h |-> Empty, done |-> {}, links |-> Empty, fin |-> <<>>, added |-> F
             dkm |-> [cfg |-> "", layers |-> <<>>]]
 TgtInit == [blobs |-> {}, mans |-> {}, tag |-> "", dk |-> [cfg |-> "", layers |-> <<>>]]
 
-Init == /\ sc \in Scenarios
+Init == /\ sid \in DOMAIN Table
         /\ arch = <<>> /\ rest = sc.entries
         /\ pos = 1 /\ pass = 0 /\ phase = "init"
         /\ imp = ImpInit /\ tgt = TgtInit /\ err = ""
@@ -249,7 +250,7 @@ Begin == /\ phase = "init"
                                                IndexName, HRec("index", "", "", FALSE, {})),
                                            DockerName, HRec("docker", "", "", FALSE, {}))]
          /\ phase' = "scan1" /\ pass' = 1 /\ pos' = 1
-         /\ UNCHANGED <<sc, arch, rest, tgt, err>>
+         /\ UNCHANGED <<sid, arch, rest, tgt, err>>
 
 Scanning == phase \in {"scan1", "scan2"}
 \* trd.tr.Next(): the entry at pos; during the very first pass the environment decides which one it is
@@ -270,7 +271,7 @@ ScanLink == \E e \in sc.entries :
                        THEN [s1 EXCEPT !.added = TRUE] ELSE s1
              /\ pos' = pos + 1
              /\ UNCHANGED <<pass, phase, tgt, err>>
-  /\ UNCHANGED sc
+  /\ UNCHANGED sid
 
 \* a regular file (or directory) entry whose first matching handler has type ht ("none": nothing to do)
 ScanFile(ht) == \E e \in sc.entries :
@@ -287,7 +288,7 @@ ScanFile(ht) == \E e \in sc.entries :
                   [] w.r = "ret" -> /\ phase' = (IF phase = "scan1" THEN "finish" ELSE "dkpush")
                                     /\ UNCHANGED <<pos, pass, err>>
                   [] OTHER -> pos' = pos + 1 /\ UNCHANGED <<pass, phase, err>>
-  /\ UNCHANGED sc
+  /\ UNCHANGED sid
 
 ScanNoHandler == ScanFile("none")
 HLayout == ScanFile("layout")
@@ -302,7 +303,7 @@ HDkLayer == ScanFile("dklayer")
 EndPassRescan == /\ Scanning /\ ~MoreEntries /\ imp.added
                  /\ imp' = [imp EXCEPT !.added = FALSE]
                  /\ pos' = 1 /\ pass' = pass + 1
-                 /\ UNCHANGED <<sc, arch, rest, phase, tgt, err>>
+                 /\ UNCHANGED <<sid, arch, rest, phase, tgt, err>>
 
 \* imageImportDockerAddLayerHandlers: one handler per (cleaned) path.  The code assigns
 \* trd.handlers[path] once per position, so a path listed twice keeps only its last position
@@ -340,7 +341,7 @@ EndPassNotFound ==
      ELSE /\ phase' = "failed"
           /\ err' = (IF phase = "scan1" THEN "unable to read all files from tar" ELSE "failed to import layers from docker tar")
           /\ UNCHANGED <<imp, pos, pass>>
-  /\ UNCHANGED <<sc, arch, rest, tgt>>
+  /\ UNCHANGED <<sid, arch, rest, tgt>>
 Fallback == EndPassNotFound /\ phase' \in {"scan2", "dkpush"}
 NotFound == EndPassNotFound /\ phase' = "failed"
 
@@ -356,19 +357,19 @@ FinishStep(op) ==
         ELSE IF f.n \in imp.mans
              THEN tgt' = [tgt EXCEPT !.mans = @ \cup {f.n}, !.tag = f.n] /\ UNCHANGED <<phase, err>>
              ELSE phase' = "failed" /\ err' = "could not find manifest to tag" /\ UNCHANGED tgt
-  /\ UNCHANGED <<sc, arch, rest, pos, pass>>
+  /\ UNCHANGED <<sid, arch, rest, pos, pass>>
 FinishPush == FinishStep("push")
 FinishTag == FinishStep("tag")
 FinishDone == /\ phase = "finish" /\ imp.fin = <<>>
               /\ phase' = "done"
-              /\ UNCHANGED <<sc, arch, rest, pos, pass, imp, tgt, err>>
+              /\ UNCHANGED <<sid, arch, rest, pos, pass, imp, tgt, err>>
 
 \* ImageImport after the second tarReadAll: manifest.New(WithOrig(trd.dockerManifest)) + ManifestPut
 DockerPush ==
   /\ phase = "dkpush"
   /\ tgt' = [tgt EXCEPT !.dk = imp.dkm, !.tag = "dkman"]
   /\ phase' = "done"
-  /\ UNCHANGED <<sc, arch, rest, pos, pass, imp, err>>
+  /\ UNCHANGED <<sid, arch, rest, pos, pass, imp, err>>
 
 Terminated == phase \in {"done", "failed"} /\ UNCHANGED vars
 
